@@ -46,6 +46,8 @@ structure Runner where
   closeCount : Nat := 0      -- number of llama.Close() calls
   loading : Bool := false
   pingOk : Bool := true      -- what llama.Ping currently answers (environment-controlled)
+  pingBlock : Bool := false  -- Ping parks until the environment answers (`pingDone`)
+  pingHeld : Bool := false   -- refMu held by needsReload across a parked Ping
   refMuHeld : Bool := false  -- refMu held by the load goroutine across WaitUntilRunning
   loaderReq : ReqId := 0     -- the request whose load goroutine created this runner
   holders : List ReqId := [] -- ghost
@@ -67,6 +69,7 @@ inductive PPC
   | idle
   | eval (q : ReqId)
   | needsReload (q : ReqId) (r : Rid)
+  | pinging (q : ReqId) (r : Rid)      -- needsReload is inside llama.Ping, holding refMu
   | use (q : ReqId) (r : Rid)
   | expire (q : ReqId) (r : Rid)
   | waitUnload (q : ReqId)
@@ -109,6 +112,9 @@ def lookup (l : List (ModelId × Rid)) (m : ModelId) : Option Rid :=
 
 def removeKey (l : List (ModelId × Rid)) (m : ModelId) : List (ModelId × Rid) :=
   l.filter (fun p => p.1 ≠ m)
+
+/-- refMu is held for a long time by someone else: the load goroutine, or needsReload in a parked Ping -/
+def Runner.locked (r : Runner) : Bool := r.refMuHeld || r.pingHeld
 
 /-- `refCount <= 0` on a uint -/
 def Runner.isZero (r : Runner) : Bool := r.refCount = 0 && !r.wrapped
@@ -183,6 +189,8 @@ inductive Act
   | timerFire (r : Rid)
   | explicitUnload (m : ModelId)           -- Scheduler.expireRunner
   | setPing (r : Rid) (ok : Bool)          -- the runner's health check starts answering ok / failing
+  | setPingBlock (r : Rid)                 -- from now on the runner's health check parks until answered
+  | pingDone (r : Rid) (ok : Bool)         -- a parked health check returns (ok = false also models its 10 s timeout)
   -- processPending
   | pTake
   | pDrainUnloaded
@@ -277,7 +285,7 @@ def step (v : Variant) (s : State) : Act → Option State
     | none => some s
     | some r =>
       -- while the load goroutine holds refMu the call parks (holding loadedMu) and runs afterwards
-      if (s.runners r).refMuHeld then some { s with unloaders := r :: s.unloaders } else some (triggerExpire s r)
+      if (s.runners r).locked then some { s with unloaders := r :: s.unloaders } else some (triggerExpire s r)
   | .pTake =>
     match s.ppc, s.pendingQ with
     | .idle, q :: rest =>
@@ -306,20 +314,31 @@ def step (v : Variant) (s : State) : Act → Option State
         | .delay => some { s1 with ppc := .idle, delayed := q :: s1.delayed }
     | _ => none
   | .setPing r ok =>
-    if r < s.nRunners then some (setRunner s r { s.runners r with pingOk := ok }) else none
+    if r < s.nRunners then some (setRunner s r { s.runners r with pingOk := ok, pingBlock := false }) else none
+  | .setPingBlock r =>
+    if r < s.nRunners then some (setRunner s r { s.runners r with pingBlock := true }) else none
+  | .pingDone r ok =>
+    match s.ppc with
+    | .pinging q r' =>
+      if r' = r then
+        some { setRunner s r { s.runners r with pingHeld := false } with ppc := if ok then .use q r else .expire q r }
+      else none
+    | _ => none
   | .pNeedsReload =>
     match s.ppc with
     | .needsReload q r =>
       let x := s.runners r
-      if x.refMuHeld then none
-      else if x.closed ∨ x.opts ≠ (s.reqs q).opts ∨ ¬ x.pingOk then some { s with ppc := .expire q r }
+      if x.locked then none
+      else if x.closed ∨ x.opts ≠ (s.reqs q).opts then some { s with ppc := .expire q r }   -- Ping not reached
+      else if x.pingBlock then some { setRunner s r { x with pingHeld := true } with ppc := .pinging q r }
+      else if ¬ x.pingOk then some { s with ppc := .expire q r }
       else some { s with ppc := .use q r }
     | _ => none
   | .pUse =>
     match s.ppc with
     | .use q r =>
       let x := s.runners r
-      if x.refMuHeld then none
+      if x.locked then none
       else if v.recheckGrant ∧ x.closed then some { s with ppc := .eval q }
       else
         let x := x.stopTimer
@@ -332,7 +351,7 @@ def step (v : Variant) (s : State) : Act → Option State
   | .pExpire =>
     match s.ppc with
     | .expire q r =>
-      if (s.runners r).refMuHeld then none
+      if (s.runners r).locked then none
       else some { triggerExpire s r with ppc := .waitUnload q }
     | _ => none
   | .pWaitUnload =>
@@ -362,7 +381,7 @@ def step (v : Variant) (s : State) : Act → Option State
     | _, _ => none
   | .cFin =>
     match s.cpc with
-    | .fin q r => if (s.runners r).refMuHeld then none else some (finishOn (releaseHold s q) r)
+    | .fin q r => if (s.runners r).locked then none else some (finishOn (releaseHold s q) r)
     | _ => none
   | .cTakeExpired =>
     match s.cpc, s.expiredQ with
@@ -372,7 +391,7 @@ def step (v : Variant) (s : State) : Act → Option State
     match s.cpc with
     | .exp r =>
       let x := s.runners r
-      if x.refMuHeld then none
+      if x.locked then none
       else if ¬ x.isZero then some { s with cpc := .idle, requeuers := r :: s.requeuers }
       else
         -- unload(): Close only if llama != nil
@@ -398,13 +417,13 @@ def step (v : Variant) (s : State) : Act → Option State
       some { s with finishWaiters := s.finishWaiters.erase q, finishedQ := s.finishedQ ++ [q] }
     else none
   | .timerCb r =>
-    if r ∈ s.timerCbs ∧ ¬ (s.runners r).refMuHeld then
+    if r ∈ s.timerCbs ∧ ¬ (s.runners r).locked then
       let s := { s with timerCbs := s.timerCbs.erase r }
       some { setRunner s r (s.runners r).stopTimer with expiredQ := s.expiredQ ++ [r] }
     else none
 
   | .unloadRun r =>
-    if r ∈ s.unloaders ∧ ¬ (s.runners r).refMuHeld then
+    if r ∈ s.unloaders ∧ ¬ (s.runners r).locked then
       some (triggerExpire { s with unloaders := s.unloaders.erase r } r)
     else none
 
